@@ -42,7 +42,7 @@ impl IncreasePosition {
 //@ within impl<const DECIMALS: u8, P: PositionMut<DECIMALS>> IncreasePosition<P, DECIMALS>
 //@ fn initialize_position_if_empty
 //@ sig fn initialize_position_if_empty(&mut self) -> crate::Result<()>
-//@ loop 1: invariant _k21 <= 2, old(self).position.size_in_usd@ == 0, self.params == old(self).params, self.position.mkt == old(self).position.mkt, self.position.size_in_usd == old(self).position.size_in_usd, self.position.size_in_tokens@ == 0, self.position.collateral_amount == old(self).position.collateral_amount, self.position.long == old(self).position.long, self.position.collateral_long == old(self).position.collateral_long, decreases 2 - _k21,
+//@ loop 1: invariant _k21 <= 2, old(self).position.size_in_usd@ == 0, self.params == old(self).params, self.position.mkt == old(self).position.mkt, self.position.size_in_usd == old(self).position.size_in_usd, self.position.size_in_tokens@ == 0, self.position.collateral_amount == old(self).position.collateral_amount, self.position.long == old(self).position.long, self.position.collateral_long == old(self).position.collateral_long, self.position.tb_log == old(self).position.tb_log, self.position.borrowing_factor == old(self).position.borrowing_factor, decreases 2 - _k21,
     fn initialize_position_if_empty(&mut self) -> (r: Result<(), E>)
         ensures
             // sizes, collateral and the market are untouched, except that an empty position gets zero tokens
@@ -51,6 +51,8 @@ impl IncreasePosition {
             final(self).position.long == old(self).position.long, final(self).position.collateral_long == old(self).position.collateral_long,
             old(self).position.size_in_usd@ != 0 ==> final(self).position.size_in_tokens == old(self).position.size_in_tokens,
             r.is_ok() && old(self).position.size_in_usd@ == 0 ==> final(self).position.size_in_tokens@ == 0,
+            // the borrowing state is not touched here
+            final(self).position.tb_log == old(self).position.tb_log && final(self).position.borrowing_factor == old(self).position.borrowing_factor,
 //@body
 
 //@unit C07.IncreasePosition.process_collateral
@@ -79,8 +81,8 @@ impl IncreasePosition {
 //@ fn execute
 //@ sig fn execute(mut self) -> crate::Result<Self::Report>
 //@ sub \.ok_or\(\{\s*if is_collateral_delta_positive \{\s*E::Computation\s*\} else \{\s*E::InvalidArgument\s*\}\s*\}\) => .ok_or(if is_collateral_delta_positive { E::Computation } else { E::InvalidArgument })
-//@ loop 1: invariant _k21 <= 2, self.params == old(self).params, self.position.mkt == mkt1, self.position.size_in_usd == usd1, self.position.size_in_tokens == tok1, self.position.collateral_amount == col1, self.position.long == old(self).position.long, self.position.collateral_long == old(self).position.collateral_long, decreases 2 - _k21,
-//@ before let _arr21 = [true, false]; :: let ghost mkt1 = self.position.mkt; let ghost usd1 = self.position.size_in_usd; let ghost tok1 = self.position.size_in_tokens; let ghost col1 = self.position.collateral_amount;
+//@ loop 1: invariant _k21 <= 2, self.params == old(self).params, self.position.mkt == mkt1, self.position.size_in_usd == usd1, self.position.size_in_tokens == tok1, self.position.collateral_amount == col1, self.position.long == old(self).position.long, self.position.collateral_long == old(self).position.collateral_long, self.position.tb_log == tb1, self.position.borrowing_factor == bf1, decreases 2 - _k21,
+//@ before let _arr21 = [true, false]; :: let ghost mkt1 = self.position.mkt; let ghost usd1 = self.position.size_in_usd; let ghost tok1 = self.position.size_in_tokens; let ghost col1 = self.position.collateral_amount; let ghost tb1 = self.position.tb_log; let ghost bf1 = self.position.borrowing_factor;
     fn execute(&mut self) -> (r: Result<IncreasePositionReport, E>)
         requires pos_wf(old(self).position)
         ensures
@@ -97,6 +99,9 @@ impl IncreasePosition {
                 &&& oit(p1.mkt, l, !c) == oit(p0.mkt, l, !c) && oit(p1.mkt, !l, true) == oit(p0.mkt, !l, true) && oit(p1.mkt, !l, false) == oit(p0.mkt, !l, false)
                 &&& col(p1.mkt, l, !c) == col(p0.mkt, l, !c) && col(p1.mkt, !l, true) == col(p0.mkt, !l, true) && col(p1.mkt, !l, false) == col(p0.mkt, !l, false)
                 &&& p1.long == l && p1.collateral_long == c
+                // BORROWING ORDER (C13): the total borrowing is updated exactly once, while the position STILL HOLDS its old size and
+                // borrowing factor, and with exactly the size and factor the position ends with
+                &&& p1.tb_log@ == p0.tb_log@.push(TbUpdate { prev_size: p0.size_in_usd, prev_factor: p0.borrowing_factor, next_size: p1.size_in_usd, next_factor: p1.borrowing_factor })
             }),
 //@body
 }
